@@ -119,10 +119,14 @@ func (r Ring) DivRoundByLastModulus(p0, p1 Poly) {
 
 	r.SubRings[level].AddScalar(p0.Coeffs[level], pHalf, p0.Coeffs[level])
 
+	// The intermediate values are written on p1 so that p0 is left untouched.
 	for i, s := range r.SubRings[:level] {
-		s.AddScalarLazyThenNegTwoModulusLazy(p0.Coeffs[i], s.Modulus-BRedAdd(pHalf, s.Modulus, s.BRedConstant), p0.Coeffs[i])
-		s.AddLazyThenMulScalarMontgomery(p0.Coeffs[level], p0.Coeffs[i], r.RescaleConstants[level-1][i], p1.Coeffs[i])
+		s.AddScalarLazyThenNegTwoModulusLazy(p0.Coeffs[i], s.Modulus-BRedAdd(pHalf, s.Modulus, s.BRedConstant), p1.Coeffs[i])
+		s.AddLazyThenMulScalarMontgomery(p0.Coeffs[level], p1.Coeffs[i], r.RescaleConstants[level-1][i], p1.Coeffs[i])
 	}
+
+	// Restores the last row of p0
+	r.SubRings[level].SubScalar(p0.Coeffs[level], pHalf, p0.Coeffs[level])
 }
 
 // DivRoundByLastModulusManyNTT divides (rounded) sequentially nbRescales times the polynomial by its last modulus. The input must be in the NTT domain.
